@@ -1383,6 +1383,7 @@ func init() {
 			// every execution builds a proxy (flag parsing, validation, templates): mostly garbage
 			debug.SetGCPercent(400)
 			c03Concurrent(c)
+			c03OtherTab(c)
 			cfgs := c03Configs(c.Quick())
 			bd := c03Bounds(c.Quick())
 			c.Info["configurations"] = len(cfgs)
